@@ -786,6 +786,21 @@ pub fn chain_invariant(pool: &Pool, plan: &Plan, w: &Sweep) -> Option<(&'static 
             }
         }
     }
+    // every height of a stored range (as reported by `get_stored_header_ranges`) must hold a
+    // header: a "stored segment" with a hole is not a hash-linked segment
+    if let Some(V::Ranges(rs)) = w.singles.get(2) {
+        let maxh = plan.heights.iter().copied().max().unwrap_or(0);
+        for (a, b) in rs {
+            for h in *a..=(*b).min(maxh) {
+                if !matches!(at(h), Some(V::Hdr(_))) {
+                    return Some((
+                        "stored-range/height-without-header",
+                        format!("stored ranges {rs:?} contain height {h}, but get_by_height({h}) = {:?}", at(h)),
+                    ));
+                }
+            }
+        }
+    }
     for (ix, v) in w.by_hash.iter().enumerate() {
         match v {
             V::Hdr(x) => {
@@ -1073,6 +1088,34 @@ impl Gen<'_> {
                 }
             };
             return Some(Op::Insert { batch, via: Via::Vec, intent, pos: Some((p, l)), base: Some(base), corrects: None });
+        }
+        if family < 50 && self.rng.gen_bool(0.5) {
+            // ---- exact closure of a gap by a batch that links to the UPPER stored neighbour but not
+            // to the LOWER one (possible when a fork header was stored as a new head above the gap)
+            let mut found: Option<Vec<usize>> = None;
+            'search: for (g0, g1) in gaps(model) {
+                if g0 <= 1 || g1 - g0 + 1 > self.cfg.max_batch.max(1) {
+                    continue;
+                }
+                let (Some(lo), Some(up)) = (model.stored.get(&(g0 - 1)), model.stored.get(&(g1 + 1))) else { continue };
+                for ch in pool.chains.iter() {
+                    let batch: Option<Vec<usize>> = (g0..=g1).map(|h| ch.by_height.get(&h).copied()).collect();
+                    let Some(batch) = batch else { continue };
+                    let first = &pool.hdrs[batch[0]].h;
+                    let last = &pool.hdrs[*batch.last().unwrap()].h;
+                    if links(last, &pool.hdrs[*up].h) && !links(&pool.hdrs[*lo].h, first) {
+                        found = Some(batch);
+                        break 'search;
+                    }
+                }
+            }
+            if let Some(batch) = found {
+                if model.predict_insert(pool, &batch, Via::Vec) == ["NeighborsVerificationFailed"] {
+                    let l = batch.len();
+                    let via = if self.rng.gen_bool(0.7) { Via::Vec } else { Via::Unchecked };
+                    return Some(Op::Insert { batch, via, intent: "nvf_left_exact_closure", pos: Some((0, l)), base: None, corrects: None });
+                }
+            }
         }
         if family < 50 {
             // ---- internally consistent batch that does not link to a stored neighbour ----
